@@ -76,7 +76,7 @@ func NewKVWorld(cfg Config) *KVWorld {
 		must(err)
 		w.Feeds = append(w.Feeds, fb, f2)
 		for _, c := range []*rosmar.Collection{w.B[0], w.A2} {
-			_, err = c.WriteWithXattrs(ctx, "k", 50, 0, J(`{"w":1}`), map[string][]byte{"_s": J(`{"w":"s"}`), "u": J(`{"w":"u"}`)}, nil, nil)
+			_, err = c.WriteWithXattrs(ctx, "k", 5000, 0, J(`{"w":1}`), map[string][]byte{"_s": J(`{"w":"s"}`), "u": J(`{"w":"u"}`)}, nil, nil)
 			must(err)
 			_, err = c.WriteWithXattrs(ctx, "j", 0, 0, J(`{"w":2}`), map[string][]byte{"_s": J(`{"w":"js"}`)}, nil, nil)
 			must(err)
